@@ -250,6 +250,9 @@ class CppMachine:
             ln = self.world.new('p', 'val', 0, (1 << bits) - 1)
             self.world.atoms[va]['defn'] = ZPoly.var(ln) + ZPoly.var(hn) * (1 << bits)
             self.world._exp = {}
+            if (hi_ & (hi_ + 1)) != 0:
+                # the pieces inherit the bound of the whole as a fact (their own ranges are independent)
+                self.__dict__.setdefault('global_facts', []).append((ZPoly.var(ln) + ZPoly.var(hn) * (1 << bits), ZPoly.const(hi_), frozenset({'lt', 'eq'}), 'range'))
             r = (ZPoly.var(ln), ZPoly.var(hn))
             self.splits[key] = r
             return r
@@ -467,6 +470,22 @@ class CppMachine:
         if not v.is_const():
             raise Unsupported('index / bound is not a compile-time value at %s' % loc_str(e))
         return v.const_value()
+
+    def bit_or(self, a, b, e=None):
+        """a | b for operands whose set bits cannot overlap: one of them is a multiple of 2^k and the other is below 2^k, or one is a
+        single constant bit that is clear in the other"""
+        for (x, y) in ((a, b), (b, a)):
+            lo, hi = self.rng(y)
+            sh = hi.bit_length()
+            if lo >= 0 and (x.is_zero() or x.coeff_gcd_divisible(1 << sh)):
+                return x + y
+        for (x, y) in ((a, b), (b, a)):
+            if y.is_const() and y.const_value() > 0 and (y.const_value() & (y.const_value() - 1)) == 0:
+                bpos = y.const_value().bit_length() - 1
+                lo_, hi_ = self.split(x, bpos)
+                bitv, rest = self.split(hi_, 1)
+                return x + (ONE - bitv) * y.const_value()
+        raise Unsupported('bitwise or of overlapping values at %s (%r | %r)' % (loc_str(e or {}), a, b))
 
     def divmod_const(self, a, d, e=None):
         """quotient and remainder of a non-negative value by a positive constant:  a == d*q + r,  0 <= r < d  (one pair of atoms per
@@ -863,6 +882,8 @@ class CppMachine:
             for (r, s2) in self.cond(st, s['c']):
                 outs += self.exec(s2, s['then'] if r else s.get('else'))
             return self.merge(outs)
+        if k == 'for' and id(s) in getattr(self, 'loop_summaries', {}):
+            return self.loop_summaries[id(s)](st)
         if k == 'for':
             sts = self.exec(st, s.get('init')) if s.get('init') else [st]
             done = []
@@ -1003,12 +1024,19 @@ class CppMachine:
                     cur = st.fr.vars.get(l['id'])
                     r = self.eval(st, e['rhs'])
                     bits, signed = self.tbits(l)
-                    v = {'+=': cur + r, '-=': cur - r, '<<=': cur * (1 << (r.const_value() if r.is_const() else 0)),
-                         '|=': None, '>>=': None}.get(op)
+                    v = None
+                    if op == '+=':
+                        v = cur + r
+                    elif op == '-=':
+                        v = cur - r
+                    elif op == '<<=' and r.is_const() and 0 <= r.const_value() < 4096:
+                        v = cur * (1 << r.const_value())
                     if op == '<<=' and not signed and bits:
                         v = self.split(cur, bits - r.const_value())[0] * (1 << r.const_value())
                     if op == '>>=':
                         v = self.split(cur, r.const_value())[1]
+                    if op == '|=':
+                        v = self.bit_or(cur, r, e)
                     if v is None:
                         raise Unsupported('compound assignment %s at %s' % (op, loc_str(e)))
                     if not signed and bits and op in ('+=', '-='):
@@ -1727,7 +1755,7 @@ def sign_with_facts(self, st, X):
         return 'nonneg'
     if hi < 0:
         return 'neg'
-    facts = [r for r in st.p.rels if len(r) >= 4]
+    facts = [r for r in st.p.rels if len(r) >= 4 or getattr(self, 'value_facts', False)] + list(getattr(self, 'global_facts', []))
     # the decided carries / borrows of the path are facts about whole sums: borrow == 1 means the minuend is below the subtrahend
     if getattr(self, 'infer', False):
         for a, v in st.p.bits.items():
@@ -1828,7 +1856,7 @@ def infer_bits(self, st):
                 elif lo >= wgt:
                     st.p.bits[a] = 1
                     changed = True
-                elif any(len(r) >= 4 for r in st.p.rels):
+                elif any(len(r) >= 4 for r in st.p.rels) or (getattr(self, 'value_facts', False) and st.p.rels) or getattr(self, 'global_facts', None):
                     S, theta = _unfold_chain(self, st, T, wgt, 'carry')
                     sg = sign_with_facts(self, st, S - theta)
                     if sg is not None:
@@ -1845,7 +1873,7 @@ def infer_bits(self, st):
                 elif hi < 0:
                     st.p.bits[a] = 1
                     changed = True
-                elif any(len(r) >= 4 for r in st.p.rels):
+                elif any(len(r) >= 4 for r in st.p.rels) or (getattr(self, 'value_facts', False) and st.p.rels) or getattr(self, 'global_facts', None):
                     S, theta = _unfold_chain(self, st, T, 1, 'borrow')
                     sg = sign_with_facts(self, st, S)
                     if sg is not None:
@@ -1963,11 +1991,47 @@ def rule_decompose(ctx, cfg, prog, rule='R-WORDALG/c++'):
     64-bit word.  divide_std_dword is summarised by S == d*Q + R, 0 <= R < d (and verified against that summary on its own)."""
     from . import buildmodel as bm, bls
     wordbits = bm.configs()[cfg]['words']
-    if wordbits != 64:
-        return 0
     n_ob = 0
     X = abs(bls.X)
     R = bls.R_ORDER
+    WPD = 64 // wordbits            # machine words per 64-bit digit
+    # (a0) where no 128-bit type exists the division of (upper, lower) by the constant is a 64-step restoring division: its step is
+    # decided for every bit position, and the loop is then summarised by  upper * 2^64 + lower == d * quotient + rem
+    summaries = {}
+    for f in sorted(prog.functions.values(), key=lambda f: f['qn']):
+        if 'body' not in f or strip_tmpl(f['qn']) != 'embedded_pairing::core::BigInt::divide_std_dword':
+            continue
+        r_ = check_bitserial_step(prog, f, wordbits)
+        if r_ is None:
+            continue
+        bmsgs, nit, dd = r_
+        loop, ids = _bitserial_loop(f)
+        n_ob += 1
+        ctx.ob(rule, not bmsgs and nit == 64, 'wordalg-c++|%s|restoring step' % f['qn'].replace('embedded_pairing::core::', '')[:60], loc_str(loop),
+               '%s: %s' % (f['qn'], ' ;; '.join(bmsgs[:2]) or 'only %d of 64 bit positions could be run' % nit), cfg=cfg,
+               sample=dict(config=cfg, routine=f['qn'].replace('embedded_pairing::core::', '')[:60], bit_positions=nit,
+                           specification="rem' + d q == 2 rem + bit_i(lower), 0 <= rem' < d, quotient' == quotient + q 2^i"))
+
+        def make(loop=loop, ids=ids, dd=dd):
+            def handler(mach, st):
+                U = st.fr.vars.get(ids['rem'][0])
+                L = st.fr.vars.get(ids['dividend_lower'][0])
+                Q0 = st.fr.vars.get(ids['quotient'][0])
+                if not (isinstance(U, ZPoly) and isinstance(L, ZPoly) and isinstance(Q0, ZPoly) and Q0.is_zero()):
+                    raise Unsupported('restoring division entered with quotient != 0 or untracked operands')
+                if mach.rng(U)[1] >= dd or mach.rng(U)[0] < 0:
+                    raise Unsupported('restoring division entered with an upper part not known to be below the divisor')
+                q, r = mach.divmod_const(U * (1 << 64) + L, dd)
+                st.fr.vars[ids['quotient'][0]] = q
+                st.fr.vars[ids['rem'][0]] = r
+                return [st]
+            return handler
+        summaries[id(loop)] = make()
+
+    def machine(inputs):
+        m_ = CppMachine(prog, wordbits, inputs)
+        m_.loop_summaries = {k: (lambda st, h=h, m_=m_: h(m_, st)) for k, h in summaries.items()}
+        return m_
     # (a) the division primitive against its summary
     for f in sorted(prog.functions.values(), key=lambda f: f['qn']):
         if 'body' not in f or strip_tmpl(f['qn']) != 'embedded_pairing::core::BigInt::divide_std_dword':
@@ -1977,13 +2041,17 @@ def rule_decompose(ctx, cfg, prog, rule='R-WORDALG/c++'):
         if not mm:
             continue
         bits, d = int(mm.group(1)), int(mm.group(2))
-        n = bits // 64
+        n = bits // wordbits
         if bits % 128:
             continue
         msgs = []
         for pat in ({}, {0: 1}):
             try:
-                m, finals, names = _final_states(prog, f, 64, n, [('obj', n)], pat)
+                names = ['A0', 'A0' if pat else 'A1']
+                m = machine({'A0': n, 'A1': n})
+                st0 = St(Path(), [Frame(f, ('A0', 0))])
+                st0.fr.vars[f['params'][0]['id']] = ('obj', names[1], 0)
+                finals = m.exec(st0, f['body'])
             except Unsupported as e:
                 raise bm.AnalysisBroken('R-WORDALG/c++ cannot model %s: %s' % (f['qn'], e))
             for st in finals:
@@ -2011,22 +2079,22 @@ def rule_decompose(ctx, cfg, prog, rule='R-WORDALG/c++'):
     cf = [x for x in rec['fields'] if x['name'] == 'c'][0]
     esz = cf['t']['elem']['size']
     try:
-        inputs = {'A0': 4 * esz // 8, 'A1': 4}
-        m = CppMachine(prog, 64, inputs)
+        inputs = {'A0': 4 * esz // (wordbits // 8), 'A1': 4 * WPD}
+        m = machine(inputs)
         m.big_summaries = True
         st = St(Path(), [Frame(f, ('A0', 0))])
         st.fr.vars[f['params'][0]['id']] = ('obj', 'A1', 0)
         finals = m.exec(st, f['body'])
     except Unsupported as e:
         raise bm.AnalysisBroken('R-WORDALG/c++ cannot model PowersOfX::decompose: %s' % e)
-    Y = bigw(m, words_of(m, 'A1', 4))
+    Y = bigw(m, words_of(m, 'A1', 4 * WPD))
     msgs = []
     for st in finals:
         sub = {a: ZPoly.const(v) for a, v in st.p.bits.items()}
         cs = []
         for i in range(4):
-            w = st.p.mem.get(('A0', cf['off'] + i * esz))
-            cs.append(w)
+            ws_ = [st.p.mem.get(('A0', cf['off'] + i * esz + j * (wordbits // 8))) for j in range(WPD)]
+            cs.append(None if any(w is None for w in ws_) else sum((w * (m.W ** j) for j, w in enumerate(ws_)), ZPoly()))
         path = '[' + '; '.join(st.p.trace[-6:]) + ']'
         if any(c is None for c in cs):
             msgs.append('digit %d is not written on the path %s' % ([i for i, c in enumerate(cs) if c is None][0], path))
@@ -2609,3 +2677,94 @@ def rule_inverse_step(ctx, cfg, prog, rule='R-WORDALG/c++'):
 def pr_canon(e):
     from . import pathrules as _pr
     return _pr.canon(e) if e is not None else None
+
+
+# ---------------------------------------------------------------------------------------------- bit-serial division (32-bit-word configurations)
+def _bitserial_loop(fn):
+    """the inner restoring-division loop of divide_std_dword (present when no 128-bit type exists): (for node, {name: var id})"""
+    fors = [x for x in walk(fn['body']) if isinstance(x, dict) and x.get('k') == 'for']
+    ids = {}
+    for x in walk(fn['body']):
+        if isinstance(x, dict) and x.get('k') == 'decl':
+            for v in x['vars']:
+                ids.setdefault(v.get('name'), []).append(v['id'])
+    nested = set()
+    for f_ in fors:
+        for x in walk(f_['body']):
+            if isinstance(x, dict) and x.get('k') == 'for':
+                nested.add(id(x))
+    for f_ in fors:
+        inner_fors = [x for x in walk(f_['body']) if isinstance(x, dict) and x.get('k') == 'for']
+        if inner_fors or id(f_) not in nested:
+            continue
+        names = {strip(x['lhs']).get('name') for x in walk(f_['body']) if isinstance(x, dict) and x.get('k') == 'assign' and strip(x['lhs']).get('k') == 'ref'}
+        if {'rem', 'quotient'} <= names:
+            return f_, ids
+    return None, ids
+
+
+def check_bitserial_step(prog, fn, wordbits):
+    """one iteration of the restoring division, for every bit position, from an arbitrary state with rem < d and the quotient bits at and
+    below the position clear:  rem' + d*q == 2*rem + bit_i(lower),  0 <= rem' < d,  quotient' == quotient + q * 2^i  with q the path's 0/1.
+    Returns (messages, iterations checked, divisor)."""
+    import re
+    loop, ids = _bitserial_loop(fn)
+    mm = re.search(r'divide_std_dword<(\d+)', fn['qn'])
+    if loop is None or not mm:
+        return None
+    d = int(mm.group(1))
+    msgs = []
+    init = loop.get('init')
+    ivid = init['vars'][0]['id'] if init and init.get('k') == 'decl' else None
+    rem_id = [i for i in ids.get('rem', [])]
+    q_id = ids.get('quotient', [])
+    low_id = ids.get('dividend_lower', [])
+    if ivid is None or len(rem_id) != 1 or len(q_id) != 1 or len(low_id) != 1:
+        return (['the variables of the restoring division were not identified'], 0, d)
+    nit = 0
+    for i in range(63, -1, -1):
+        m = CppMachine(prog, wordbits, {'THIS': 0, 'A': 0})
+        m.infer = True
+        m.value_facts = True
+        m.topdown_splits = True
+        st = St(Path(), [Frame(fn, ('THIS', 0))])
+        rem = m.world.input('REM')
+        m.world.atoms['REM']['hi'] = d - 1
+        low = m.world.input('LOW')
+        m.world.atoms['LOW']['hi'] = (1 << 64) - 1
+        qh = m.world.input('QH')
+        m.world.atoms['QH']['hi'] = (1 << (63 - i)) - 1
+        quo = qh * (1 << (i + 1)) if i < 63 else ZERO
+        st.fr.vars[rem_id[0]] = rem
+        st.fr.vars[low_id[0]] = low
+        st.fr.vars[q_id[0]] = quo
+        st.fr.vars[ivid] = ZPoly.const(i)
+        try:
+            outs = m.exec(st, loop['body'])
+        except Unsupported as e:
+            return (['bit %d: %s' % (i, e)], nit, d)
+        nit += 1
+        lo_i, hi_i = m.split(low, i) if i else (ZERO, low)
+        bit_i = m.split(hi_i, 1)[0]
+        for s2 in outs:
+            infer_bits(m, s2)
+            r2 = s2.fr.vars.get(rem_id[0])
+            q2 = s2.fr.vars.get(q_id[0])
+            path = '[' + '; '.join(s2.p.trace[-3:]) + ']'
+            dq = _path_normal(m, s2, q2 - quo)
+            if not dq.is_const() or dq.const_value() not in (0, 1 << i):
+                msgs.append('bit %d, path %s: the quotient changes by %r, not by 0 or 2^%d' % (i, path, dq, i))
+                continue
+            qb = 1 if dq.const_value() else 0
+            D = _path_normal(m, s2, r2 + d * qb - rem * 2 - bit_i)
+            if not D.is_zero():
+                msgs.append('bit %d, path %s: rem\' + d*q - 2*rem - bit is %r' % (i, path, D))
+                continue
+            if sign_with_facts(m, s2, r2 - d) != 'neg' or sign_with_facts(m, s2, r2) != 'nonneg':
+                # the true value 2*rem + bit - d*q must lie in [0, d)
+                tv = rem * 2 + bit_i - d * qb
+                if sign_with_facts(m, s2, tv - d) != 'neg' or sign_with_facts(m, s2, tv) != 'nonneg':
+                    msgs.append('bit %d, path %s: the new remainder is not shown to lie in [0, d)' % (i, path))
+        if len(msgs) > 4:
+            break
+    return (msgs, nit, d)
